@@ -125,3 +125,91 @@ def flip_comparisons(src):
     tree = F().visit(tree)
     ast.fix_missing_locations(tree)
     return ast.unparse(tree) + "\n"
+
+
+def permute_methods(src):
+    """reverse the order of the plain (undecorated) methods of every class and of the plain functions of every module: definition order of
+    undecorated defs carries no meaning (decorated ones -- properties with setters, registrations -- and all other statements keep their places)."""
+    with warnings.catch_warnings():
+        warnings.simplefilter("ignore")
+        tree = ast.parse(src)
+
+    def permute(body):
+        idx = [i for i, st in enumerate(body) if isinstance(st, (ast.FunctionDef, ast.AsyncFunctionDef)) and not st.decorator_list]
+        # names a module-level statement may call while the module is still being executed must stay defined before it: only permute runs of
+        # defs that are not separated by other statements
+        runs, cur = [], []
+        for i in range(len(body)):
+            if i in idx:
+                cur.append(i)
+            else:
+                if len(cur) > 1:
+                    runs.append(cur)
+                cur = []
+        if len(cur) > 1:
+            runs.append(cur)
+        for run in runs:
+            defs = [body[i] for i in run]
+            names = [d.name for d in defs]
+            if len(set(names)) != len(names):
+                continue  # a later def overrides an earlier one of the same name: order matters
+            for i, d in zip(run, reversed(defs)):
+                body[i] = d
+    for node in ast.walk(tree):
+        if isinstance(node, (ast.ClassDef, ast.Module)):
+            permute(node.body)
+    ast.fix_missing_locations(tree)
+    return ast.unparse(tree)
+
+
+class _DeMorgan(ast.NodeTransformer):
+    """not (a or b) <-> (not a) and (not b); `x if c else y` -> `y if not c else x` is NOT applied (too invasive); double negations are removed."""
+
+    def visit_UnaryOp(self, node):
+        self.generic_visit(node)
+        if isinstance(node.op, ast.Not) and isinstance(node.operand, ast.BoolOp):
+            op = ast.And() if isinstance(node.operand.op, ast.Or) else ast.Or()
+            return ast.copy_location(ast.BoolOp(op=op, values=[ast.UnaryOp(op=ast.Not(), operand=v) for v in node.operand.values]), node)
+        if isinstance(node.op, ast.Not) and isinstance(node.operand, ast.UnaryOp) and isinstance(node.operand.op, ast.Not):
+            return node  # leave `not not x` (a bool() conversion) alone
+        return node
+
+
+def de_morgan(src):
+    with warnings.catch_warnings():
+        warnings.simplefilter("ignore")
+        tree = ast.parse(src)
+    tree = _DeMorgan().visit(tree)
+    ast.fix_missing_locations(tree)
+    return ast.unparse(tree)
+
+
+class _ReturnVar(ast.NodeTransformer):
+    """`return <expr>` -> `_ret = <expr>; return _ret` for non-trivial expressions (an 'introduce variable' refactoring)."""
+
+    def _rewrite(self, body):
+        out = []
+        for st in body:
+            if isinstance(st, ast.Return) and st.value is not None and not isinstance(st.value, (ast.Name, ast.Constant)):
+                out.append(ast.Assign(targets=[ast.Name(id="_ret", ctx=ast.Store())], value=st.value, lineno=st.lineno))
+                out.append(ast.Return(value=ast.Name(id="_ret", ctx=ast.Load())))
+            else:
+                out.append(st)
+        return out
+
+    def generic_visit(self, node):
+        super().generic_visit(node)
+        for field in ("body", "orelse", "finalbody"):
+            b = getattr(node, field, None)
+            if isinstance(b, list) and b and isinstance(b[0], ast.stmt):
+                setattr(node, field, self._rewrite(b))
+        return node
+
+
+def return_variable(src):
+    with warnings.catch_warnings():
+        warnings.simplefilter("ignore")
+        tree = ast.parse(src)
+    tree = _ReturnVar().visit(tree)
+    ast.fix_missing_locations(tree)
+    return ast.unparse(tree)
